@@ -14,7 +14,7 @@ def dispatchC08 : List Str → Option (List Str)
   | cmd :: args =>
     if cmd == "c08.unit".toList then
       -- statements of one unit body (reader output) -> recorded chains
-      let s := runUnit Generated.C08.cascade c08Intr args
+      let s := runUnit Generated.C08.guards Generated.C08.cascade c08Intr args
       some ((if s.err then "err".toList else "ok".toList) :: s.calls.map showChain)
     else if cmd == "c08.resolve".toList then
       -- c08.resolve <vars,> <types,> <procs,> chain*   (chains joined with %)
@@ -48,8 +48,9 @@ def dispatchC08 : List Str → Option (List Str)
       match args with
       | [name, s] =>
         let n := String.ofList name
-        if n == "FORMAT_RE" then some ["ok".toList, boolStr (formatRe s)]
-        else if n == "ARITH_GOTO_RE" then some ["ok".toList, boolStr (arithGotoRe s)]
+        if n == "FORMAT_RE" || n == "ARITH_GOTO_RE" then
+          -- generated parse tree, interpreted
+          some ["ok".toList, boolStr (Rx.guardTest Generated.C08.guards n s)]
         else if n == "BLOCK_RE" then some ["ok".toList, boolStr (blockRe s)]
         else if n == "VARIABLE_RE" then some ["ok".toList, boolStr (variableRe s)]
         else if n == "ATTRIB_RE" then some ["ok".toList, boolStr (attribRe s)]
@@ -66,7 +67,7 @@ def dispatchC08 : List Str → Option (List Str)
     else if cmd == "c08.gate".toList then
       -- c08.gate <blocklevel> <masked line> : branch taken
       match args with
-      | [b, s] => some ["ok".toList, (gateName Generated.C08.cascade s (natOf b : Nat)).toList]
+      | [b, s] => some ["ok".toList, (gateName Generated.C08.guards Generated.C08.cascade s (natOf b : Nat)).toList]
       | _ => some ["bad-request".toList]
     else none
   | [] => none
